@@ -86,31 +86,23 @@ def run(ctx, col: Collector):
 
     # ---------------------------------------------------------------- C04-once
     def once():
+        from .common import select_filter
         rd = idx.func('pydbml.renderer.sql.default.renderer', 'DefaultSQLRenderer.render_db')
         dbp = [a.arg for a in rd.node.args.args][1]
-        gens = [n for n in ast.walk(rd.node) if isinstance(n, (ast.GeneratorExp, ast.ListComp)) and norm(n.generators[0].iter) == f'{dbp}.refs']
-        okd = False
-        got = ''
-        if gens:
-            g = gens[0]
-            rv = norm(g.generators[0].target)
-            got = norm(g)
-            okd = norm(g.elt) == rv and [norm(i).replace(' ', '') for i in g.generators[0].ifs] == [f'not{rv}.inline']
-        col.check(okd, 'C04-once', 'render_db:non-inline-filter', 'the database level renders exactly the references that are not inline',
-                  f'render_db selects references with `{got}`; expected every ref of {dbp}.refs with `not ref.inline`', node=rd.node, file=rd.file)
+        st, f = select_filter(rd.node, f'{dbp}.refs', [('not', ('truthy', 'VAR.inline'))])
+        (col.ok if st == 'ok' else col.bad if st == 'bad' else col.unk)(
+            'C04-once', 'render_db:non-inline-filter',
+            'the database level renders exactly the references that are not inline' if st == 'ok' else
+            (f'render_db selects references from {dbp}.refs under {f["conds"]}; expected exactly `not ref.inline`' if st == 'bad'
+             else f'render_db does not select from {dbp}.refs in a recognised form'), node=rd.node, file=rd.file)
         gi = idx.func('pydbml.renderer.sql.default.table', 'get_inline_references_for_sql')
         mp = [a.arg for a in gi.node.args.args][0]
-        comps = [n for n in ast.walk(gi.node) if isinstance(n, (ast.ListComp, ast.GeneratorExp))]
-        okt = False
-        got = ''
-        if comps:
-            g = comps[0]
-            rv = norm(g.generators[0].target)
-            got = norm(g)
-            okt = norm(g.elt) == rv and norm(g.generators[0].iter) == f'get_references_for_sql({mp})' and \
-                [norm(i).replace(' ', '') for i in g.generators[0].ifs] == [f'{rv}.inline']
-        col.check(okt, 'C04-once', 'get_inline_references_for_sql:inline-filter', 'the table level renders exactly its inline references',
-                  f'get_inline_references_for_sql returns `{got}`; expected the references owned by the table with `ref.inline`', node=gi.node, file=gi.file)
+        st, f = select_filter(gi.node, f'get_references_for_sql({mp})', [('truthy', 'VAR.inline')])
+        (col.ok if st == 'ok' else col.bad if st == 'bad' else col.unk)(
+            'C04-once', 'get_inline_references_for_sql:inline-filter',
+            'the table level renders exactly its inline references' if st == 'ok' else
+            (f'get_inline_references_for_sql selects under {f["conds"]}; expected exactly `ref.inline` over get_references_for_sql(model)' if st == 'bad'
+             else 'get_inline_references_for_sql does not select from get_references_for_sql(model) in a recognised form'), node=gi.node, file=gi.file)
         ab = [n for n in gi.node.body if isinstance(n, ast.If) and norm(n.test) == f'{mp}.abstract' and n.body and isinstance(n.body[0], ast.Return)
               and isinstance(n.body[0].value, (ast.List, ast.Tuple)) and not n.body[0].value.elts]
         col.check(bool(ab), 'C04-once', 'get_inline_references_for_sql:abstract-hosts-none', 'a join table hosts no inline references',
